@@ -16,6 +16,7 @@ import Driver.C11
 import Driver.C15
 import Driver.C09
 import Driver.C06
+import Driver.C13
 /-
   kdriver: one request per line on stdin, `model<TAB>spec` per line on stdout.
   Anything it cannot parse is answered `bad-op<TAB>bad-op` (never a default value).
@@ -49,6 +50,7 @@ def dispatch (line : String) : String :=
       else if op.startsWith "destr." then Driver.C15.handle "destr" (op.drop 6).toString args
       else if op.startsWith "rg." then Driver.C09.handle (op.drop 3).toString args
       else if op.startsWith "sp." then Driver.C06.handle (op.drop 3).toString args
+      else if op.startsWith "par" then Driver.C13.handle op args
       else none
   match r with
   | some (m, s) => m ++ "\t" ++ s
